@@ -2,6 +2,7 @@ pub mod faults;
 pub mod g01;
 pub mod g02;
 pub mod g05;
+pub mod g11;
 pub mod g14;
 pub mod g15;
 pub mod templates;
